@@ -36,6 +36,21 @@
         }
 
 //@item rodbus/src/client/channel.rs | Channel | derive=
+//@item rodbus/src/client/channel.rs | ClientTask
+//@item rodbus/src/client/channel.rs | ClientTaskInner
+        impl ClientTask {
+            pub open spec fn is_tcp_task(&self) -> bool { self.inner is Tcp }
+            pub open spec fn tcp_task(&self) -> crate::tcp::client::TcpChannelTask { self.inner->Tcp_0 }
+            pub open spec fn serial_task(&self) -> crate::serial::client::SerialChannelTask { self.inner->Serial_0 }
+//@fn rodbus/src/client/channel.rs | ClientTask::tcp | tags=C13
+//@|    ensures r.is_tcp_task(), r.tcp_task() == task,
+//@fn rodbus/src/client/channel.rs | ClientTask::serial | tags=C13
+//@|    ensures !r.is_tcp_task(), r.serial_task() == task,
+// [C13] the public task runs the channel task it was built with (from an empty listener log)
+//@fn rodbus/src/client/channel.rs | ClientTask::run | tags=C13
+//@|    requires self.is_tcp_task() ==> self.tcp_task().wf() && self.tcp_task().states().len() == 0,
+//@|        !self.is_tcp_task() ==> self.serial_task().wf() && self.serial_task().states().len() == 0,
+        }
 //@item rodbus/src/client/channel.rs | RequestParam | derive=Clone,Copy
 
         // the invariant of the command queue, from the producers' side: what `queue_inv` means for a Command (the consumer side is
@@ -53,6 +68,13 @@
 //@|    ensures r == Command::Request(Request { id: param.id, timeout: param.response_timeout, details }),
 
         impl Channel {
+//@fn rodbus/src/client/channel.rs | Channel::create_rtu_handle_and_task | tags=C10,C12,C13,C20
+//@|    ensures !r.1.is_tcp_task(), r.1.serial_task().wf(), r.1.serial_task().client_loop.decode == decode, !r.1.serial_task().client_loop.enabled,
+//@|        r.1.serial_task().client_loop.timeout_counter.limit() is None,
+//@|        r.1.serial_task().client_loop.rx.0.chan == r.0.tx.chan,
+//@|        listener matches Some(l) ==> r.1.serial_task().states() == l.log(),
+//@|        listener is None ==> r.1.serial_task().states().len() == 0,
+//@closure 0| || -> (l: Box<dyn crate::client::listener::Listener<crate::client::listener::PortState>>) ensures l.log().len() == 0
 //@fn rodbus/src/client/channel.rs | Channel::enable | tags=C13 | r10
 //@|    ensures r is Ok ==> self.tx.delivered(Command::Setting(Setting::Enable)),
 //@entry| broadcast use axiom_queue_inv_intro;
